@@ -362,8 +362,14 @@ def make_clients(rng, n: int, kinds: Optional[List[str]] = None, same_device: bo
 
 def base_config(rng, zone_sensitive: bool = False) -> Dict[str, Any]:
     tz = rng.choice(ZONES)
-    return {"sched": rng.randrange(1 << 30), "tz": tz,
-            "epoch0": gen_epoch_zone(rng, tz) if zone_sensitive else gen_epoch_any(rng)}
+    cfg = {"sched": rng.randrange(1 << 30), "tz": tz,
+           "epoch0": gen_epoch_zone(rng, tz) if zone_sensitive else gen_epoch_any(rng)}
+    r = rng.random()
+    if r < 0.2:
+        cfg["log"] = "DEBUG"        # the user has turned the library's debug logging on
+    elif r < 0.25:
+        cfg["log"] = "INFO"
+    return cfg
 
 
 def uidify(steps: List[dict]) -> List[dict]:
